@@ -33,6 +33,7 @@ func runC15(c *report.Ctx) {
 	checkInitEvents(c)
 	c.Clause("2 init runtime-done status")
 	checkInitStatusDataflow(c)
+	checkGatePrimitive(c) // the status derives from the await results of the barrier primitive
 	checkFirstFatalErrorLifetime(c) // runtime-done/reset status and error type are read from this record
 	c.Clause("3 invoke events")
 	checkInvokeEvents(c)
